@@ -217,6 +217,13 @@ func (r *run) one(s stmt, allEndpoints bool) {
 	dec := decision(s.sql, s.hdr)
 	o := r.e.query("/api/v1/query", s.sql, s.hdr)
 	kind, _ := api.VerifC14ShowKind(s.sql)
+	if os.Getenv("C14_DEBUG") != "" {
+		b := string(o.body)
+		if len(b) > 300 {
+			b = b[:300]
+		}
+		fmt.Fprintf(os.Stderr, "DEBUG %q -> %s status=%d body=%s\n", s.sql, dec, o.status, b)
+	}
 	c.Tag("decision:" + dec)
 	c.Tag(fmt.Sprintf("status:%d", o.status))
 	// consistency of the handler with its parts (tie of the op line to the HTTP path)
